@@ -118,6 +118,7 @@ def nontrivial(case):
 def tally(rep, case, impl_res, ans):
     rep.count('probe_dir_names:%s/%s' % (case.get('dirnames', 'idx'), case.get('dirkind', 'path')))
     rep.count('probes:%d' % len(case['probes']))
+    rep.count('positions_dtype:' + (case['probes'][0].get('dtypes') or {}).get('channel_positions', 'float64'))
     P = case['probes']
     if len({len(p['channel_map']) for p in P}) > 1:
         rep.count('different_channel_counts')
